@@ -20,7 +20,8 @@ PROPERTIES = {
     ),
     "C11": dict(
         modules=["contracts.c11_clients"],
-        bounded=[_bounded.lazy("contracts.e2e_outcomes", "bounded_outcomes"), _bounded.lazy("contracts.c11_multipart", "bounded_separation"), _bounded.lazy("contracts.c11_multipart", "bounded_wire")],
+        bounded=[_bounded.lazy("contracts.e2e_outcomes", "bounded_outcomes"), _bounded.lazy("contracts.c11_multipart", "bounded_separation"), _bounded.lazy("contracts.c11_multipart", "bounded_wire"),
+                 _bounded.lazy("contracts.c11_multipart", "bounded_agreement")],
         explanation="run-time base clients: value conversion, JSON and multipart request construction, variables processing and the "
                     "json/multipart/telemetry dispatchers (each proved against recording stand-ins of its callees), one shared contract "
                     "instantiated for each of the four bundled clients; upload separation (separate_files) by the exhaustive bounded stand-in",
